@@ -13,28 +13,28 @@ theorem nextRef_np (r : Rd) : (nextRef r).isPanic = false := by
 theorem readUnary_np (r : Rd) : (readUnary r).isPanic = false := by
   unfold readUnary; split <;> rfl
 
-theorem readUint_np (n : Int) (hn : 0 ≤ n) (r : Rd) : (readUint n r).isPanic = false := by
+theorem readUint_np (n : Int) (_hn : 0 ≤ n) (r : Rd) : (readUint n r).isPanic = false := by
   unfold readUint
   split
   · rfl
   · split
     · rfl
-    · rw [if_neg (by omega)]; rfl
+    · split <;> rfl
 
-theorem readBits_np (n : Int) (hn : 0 ≤ n) (r : Rd) : (readBits n r).isPanic = false := by
+theorem readBits_np (n : Int) (_hn : 0 ≤ n) (r : Rd) : (readBits n r).isPanic = false := by
   unfold readBits
   split
   · rfl
-  · rw [if_neg (by omega)]; rfl
+  · split <;> rfl
 
-theorem skip_np (n : Int) (hn : 0 ≤ n) (r : Rd) : (skip n r).isPanic = false := by
+theorem skip_np (n : Int) (_hn : 0 ≤ n) (r : Rd) : (skip n r).isPanic = false := by
   unfold skip
   split
   · rfl
-  · rw [if_neg (by omega)]; rfl
+  · split <;> rfl
 
-/-- a negative width does reach the panic (why the callers' arithmetic matters) -/
-theorem readUint_negative_panics : (readUint (-8) ⟨[], []⟩).isPanic = true := by decide
+/-- a negative width is an error of the repaired readers (it was a panic before repo fix 31abce9) -/
+theorem readUint_negative_is_error : (readUint (-8) ⟨[], []⟩).isErr = true := by decide
 
 theorem minBits_nonneg (n : Int) : (0 : Int) ≤ (minBits n : Int) := Int.natCast_nonneg _
 
